@@ -148,6 +148,29 @@ func (c *oblCtx) condFacts0(cond ast.Expr, truth bool) []fact {
 				}
 			}
 		}
+		// a boolean local bound once to a condition (`if ok := a && b; !ok {…}`) stands for that condition, as long as
+		// nothing it mentions is assigned again
+		if obj, isVar := objOf(c.info(), e).(*types.Var); isVar && !obj.IsField() && c.fn != nil && !c.reassigned(e.Name) {
+			if b, isBasic := obj.Type().Underlying().(*types.Basic); isBasic && b.Kind() == types.Bool {
+				if defs := c.defsOf(obj); len(defs) == 1 && defs[0] != nil {
+					switch d := ast.Unparen(defs[0]).(type) {
+					case *ast.BinaryExpr, *ast.UnaryExpr:
+						stable := true
+						ast.Inspect(d, func(x ast.Node) bool {
+							if id, ok := x.(*ast.Ident); ok {
+								if v, ok := objOf(c.info(), id).(*types.Var); ok && !v.IsField() && c.reassigned(id.Name) {
+									stable = false
+								}
+							}
+							return true
+						})
+						if stable {
+							return c.condFacts(d, truth)
+						}
+					}
+				}
+			}
+		}
 	case *ast.UnaryExpr:
 		if e.Op == token.NOT {
 			return c.condFacts(e.X, !truth)
@@ -158,9 +181,16 @@ func (c *oblCtx) condFacts0(cond ast.Expr, truth bool) []fact {
 			if truth {
 				return append(c.condFacts(e.X, true), c.condFacts(e.Y, true)...)
 			}
+			// !(a && b) is (!a || !b)
+			if out := c.eitherLen(e.X, e.Y, false); out != nil {
+				return out
+			}
 		case token.LOR:
 			if !truth {
 				return append(c.condFacts(e.X, false), c.condFacts(e.Y, false)...)
+			}
+			if out := c.eitherLen(e.X, e.Y, true); out != nil {
+				return out
 			}
 		case token.GTR, token.GEQ, token.LSS, token.LEQ, token.EQL, token.NEQ:
 			op := e.Op
@@ -213,6 +243,29 @@ func (c *oblCtx) condFacts0(cond ast.Expr, truth bool) []fact {
 		}
 	}
 	return nil
+}
+
+// eitherLen: one of two conditions holds (each taken with the given truth); when both bound the length of the same
+// thing from below, the weaker bound holds (`n == 1 || n == 2` gives n >= 1).
+func (c *oblCtx) eitherLen(a, b ast.Expr, truth bool) []fact {
+	var out []fact
+	for _, fa := range c.condFacts0(a, truth) {
+		if fa.lenOf == "" {
+			continue
+		}
+		for _, fb := range c.condFacts0(b, truth) {
+			if fb.lenOf == fa.lenOf {
+				m := fa.min
+				if fb.min < m {
+					m = fb.min
+				}
+				if m > 0 {
+					out = append(out, fact{lenOf: fa.lenOf, min: m})
+				}
+			}
+		}
+	}
+	return out
 }
 
 func terminates(b *ast.BlockStmt) bool {
@@ -958,6 +1011,15 @@ func (c *oblCtx) obligIndex(n *ast.IndexExpr) {
 			c.add("OBL-INDEX", n, construct, VOK, how, true)
 			return
 		}
+		// x[len(x)-k] (also through a local bound to len(x)) with 1 <= k <= the guaranteed length
+		if be, ok := ast.Unparen(n.Index).(*ast.BinaryExpr); ok && be.Op == token.SUB {
+			if la, ok := c.lenArg(be.X); ok && la == x && !c.reassigned(x) {
+				if k, ok := c.constInt(be.Y); ok && k >= 1 && c.minLen(x) >= k {
+					c.add("OBL-INDEX", n, construct, VOK, fmt.Sprintf("I10: index len(%s)-%d with len(%s) >= %d from a dominating guard", x, k, x, c.minLen(x)), true)
+					return
+				}
+			}
+		}
 		// xs := make([]T, len(R)+k), k >= 1: xs[len(R)] exists
 		if la, ok := c.lenArg(n.Index); ok {
 			if base, extra, ok := c.madeLen(n.X); ok && base == la && extra >= 1 {
@@ -982,6 +1044,10 @@ func (c *oblCtx) obligIndex(n *ast.IndexExpr) {
 				return
 			}
 		}
+	}
+	if how, ok := c.groupParamIndex(n); ok {
+		c.add("OBL-INDEX", n, construct, VOK, how, true)
+		return
 	}
 	if why, ok := c.justifiedFor(n, construct); ok {
 		c.add("OBL-INDEX", n, construct, VJustified, why, true)
@@ -1288,4 +1354,114 @@ func (c *oblCtx) intRange(e ast.Expr) (lo, hi int, ok bool) {
 		}
 	}
 	return 0, 0, false
+}
+
+
+// groupParamIndex (I9): `m[g]` where m is the non-empty FindStringSubmatch of a regexp the function receives as a
+// parameter and g an integer parameter: safe when every call site of the function passes a package-level regexp with
+// a constant pattern and a constant group number that the pattern has. The function must not be used as a value.
+func (c *oblCtx) groupParamIndex(n *ast.IndexExpr) (string, bool) {
+	if c.fn == nil {
+		return "", false
+	}
+	info := c.info()
+	self, _ := info.Defs[c.fn.Name].(*types.Func)
+	xid, gid := identOf(n.X), identOf(n.Index)
+	if self == nil || xid == nil || gid == nil || c.minLen(es(n.X)) < 1 {
+		return "", false
+	}
+	paramIndex := func(o types.Object) int {
+		k := 0
+		for _, f := range c.fn.Type.Params.List {
+			for _, nm := range f.Names {
+				if info.Defs[nm] == o {
+					return k
+				}
+				k++
+			}
+		}
+		return -1
+	}
+	gi := paramIndex(objOf(info, gid))
+	if gi < 0 || c.reassigned(gid.Name) {
+		return "", false
+	}
+	defs := c.defsOf(objOf(info, xid))
+	if len(defs) != 1 || defs[0] == nil {
+		return "", false
+	}
+	call, ok := ast.Unparen(defs[0]).(*ast.CallExpr)
+	if !ok || fullName(calleeOf(info, call)) != "(*regexp.Regexp).FindStringSubmatch" {
+		return "", false
+	}
+	rid := identOf(call.Fun.(*ast.SelectorExpr).X)
+	if rid == nil {
+		return "", false
+	}
+	ri := paramIndex(objOf(info, rid))
+	if ri < 0 || c.reassigned(rid.Name) {
+		return "", false
+	}
+	sites, good := 0, true
+	for _, p := range c.w.Pkgs {
+		cc := &oblCtx{w: c.w, pkg: p}
+		for _, f := range p.Syntax {
+			ast.Inspect(f, func(x ast.Node) bool {
+				switch v := x.(type) {
+				case *ast.CallExpr:
+					if calleeOf(p.TypesInfo, v) != self {
+						return true
+					}
+					sites++
+					if ri >= len(v.Args) || gi >= len(v.Args) {
+						good = false
+						return true
+					}
+					re, _, ok := cc.regexpOf(v.Args[ri])
+					tv := p.TypesInfo.Types[v.Args[gi]]
+					if !ok || tv.Value == nil {
+						good = false
+						return true
+					}
+					k, exact := constant.Int64Val(tv.Value)
+					if !exact || k < 0 || int(k) > re.NumSubexp() {
+						good = false
+					}
+				case *ast.Ident:
+					// used as a value (not as the function of a call): unknown call sites
+					if p.TypesInfo.Uses[v] == types.Object(self) {
+						if !isCallFun(f, v) {
+							good = false
+						}
+					}
+				}
+				return true
+			})
+		}
+	}
+	if sites == 0 || !good {
+		return "", false
+	}
+	return fmt.Sprintf("I9: group number and regexp are parameters; each of the %d call sites passes a constant pattern that has the constant group it asks for, and the match is non-empty here", sites), true
+}
+
+// isCallFun: the identifier is the function position of a call expression somewhere in f.
+func isCallFun(f *ast.File, id *ast.Ident) bool {
+	found := false
+	ast.Inspect(f, func(x ast.Node) bool {
+		if call, ok := x.(*ast.CallExpr); ok {
+			switch fn := ast.Unparen(call.Fun).(type) {
+			case *ast.Ident:
+				if fn == id {
+					found = true
+				}
+			case *ast.SelectorExpr:
+				if fn.Sel == id {
+					found = true
+				}
+			}
+		}
+		return !found
+	})
+	return found
 }
